@@ -816,4 +816,7 @@ Proof.
     destruct (match errs with [] => (s1, false) | _ => _ end) as [s2 failed]. cbn [fst] in K2.
     destruct failed; [exact K2|]. destruct (flt fs 0%nat KFeResize); [exact K2|].
     eapply sk_trans; [exact K2|apply sk_of_sst; apply sst_upd_csize].
+  - apply (G (fst (do_sync_data s a))); [|destruct (do_sync_data s a); exact Hin].
+    unfold do_sync_data. destruct (aget (replicas s) a) as [[]|]; try apply sk_refl.
+    destruct (find _ (replicas s)) as [[r0 m0]|]; [|apply sk_refl]. cbn. apply sk_of_sst. apply sst_upd_rep.
 Qed.
